@@ -67,6 +67,14 @@ func init() {
 			errv, _ := s.errOrNil("converr", false)
 			return []Val{errv}
 		}
+		L["(time.Time).Format"] = func(s *State, site ssa.Instruction, a []Val) []Val {
+			r := s.freshStr("timefmt")
+			if lay, ok := constString(callArg(site, 1)); ok && refClean(lay) && refNoCTL(lay) {
+				s.used("(time.Time).Format(layout) with a constant printable-ASCII layout yields printable ASCII text without newline")
+				s.assume(and(app("clean", r.S), app("noNL", r.S)))
+			}
+			return []Val{r}
+		}
 		L["(*bytes.Buffer).String"] = func(s *State, site ssa.Instruction, a []Val) []Val {
 			s.used("(*bytes.Buffer).String(): the text written to the buffer so far")
 			for k, v := range s.ghost {
